@@ -253,7 +253,7 @@ def obligations(tier):
         out.append(Ob(name, h, dict(kind=kind, framing=framing, cuts=cuts, Lr=tuple(Lr), s1r=tuple(s1r),
                                     s2r=tuple(s2r), exts=list(exts), trailers=list(trailers),
                                     tails=list(tails), interim=interim),
-                      budget=400 if quick else 3000, per_path=20, covers=covers, bounds=bounds))
+                      budget=900 if quick else 6000, per_path=20, covers=covers, bounds=bounds))
 
     for kind in ("req", "rsp"):
         if quick:
